@@ -383,7 +383,7 @@ func Replay(path string) (*Case, []string, error) {
 // Determinism executes the same explicit RunSpec n times (GOMAXPROCS 1/4/16) and compares stdout and
 // the event log; it also checks that the case list is a pure function of the seed.
 func Determinism(n int) (map[string]interface{}, bool, error) {
-	e, _, cleanup, err := Setup(true, false)
+	e, _, cleanup, err := Setup(true, true) // with the dependency seams, as C14 runs
 	if err != nil {
 		return nil, false, err
 	}
